@@ -223,6 +223,48 @@ def enumerate_derivations(n, tag, dep, categories, admitted, memo, roots, penalt
     return out
 
 
+def count_derivations(n, categories, admitted, memo, roots, max_chain=12):
+    """number of derivations (tree shape x tags x rule indices) with an allowed root: a polynomial dynamic
+    program over (span, category), usable where enumeration is hopeless"""
+    roots = set(roots)
+    chart = {}
+
+    def close_unary(cell):
+        frontier = dict(cell)
+        depth = 0
+        while frontier:
+            depth += 1
+            if depth > max_chain:
+                raise RefOverflow('unary chain too long (cyclic unary rules?)')
+            nxt = {}
+            for cat, c in frontier.items():
+                for r in memo.unary(cat):
+                    nxt[r.cat] = nxt.get(r.cat, 0) + c
+            for cat, c in nxt.items():
+                cell[cat] = cell.get(cat, 0) + c
+            frontier = nxt
+
+    for i in range(n):
+        cell = {}
+        for t in admitted[i]:
+            cell[categories[t]] = cell.get(categories[t], 0) + 1
+        close_unary(cell)
+        chart[(i, i + 1)] = cell
+    for length in range(2, n + 1):
+        for i in range(0, n - length + 1):
+            j = i + length
+            cell = {}
+            for k in range(i + 1, j):
+                for lc, lcount in chart[(i, k)].items():
+                    for rc, rcount in chart[(k, j)].items():
+                        for r in memo.binary(lc, rc):
+                            cell[r.cat] = cell.get(r.cat, 0) + lcount * rcount
+            if length != n:
+                close_unary(cell)
+            chart[(i, j)] = cell
+    return sum(c for cat, c in chart[(0, n)].items() if cat in roots)
+
+
 # ------------------------------------------------------------------ per-tree oracles
 
 def canon_tree(tree):
